@@ -88,10 +88,11 @@ Definition sem_ok (c : wcase) : bool :=
   match c with (t, ws) => forallb (fun wv => Bool.eqb (matchb (fst wv) t) (snd wv)) ws end.
 Definition cpp_ok (c : wcase) : bool :=
   match c with (t, ws) =>
-    if fe_accepts t then
+    if fe_accepts t && greedy t then
       match program t with
-      | Ok p => forallb (fun wv => match cpp_match false (enough_fuel p) p (fst wv) with
+      | Ok p => forallb (fun wv => match cpp_match true shipped_fuel p (fst wv) with
                                    | Ok b => Bool.eqb b (snd wv)
+                                   | Crash OutOfFuel => eps_cyclic p
                                    | _ => false
                                    end) ws
       | _ => false
@@ -99,6 +100,20 @@ Definition cpp_ok (c : wcase) : bool :=
     else true
   end.
 Definition bad_w := bad_from (fun c => sem_ok c && cpp_ok c) 0%nat.
+(* observed outcomes of the compiled matcher: Some verdict | None = killed by the watchdog *)
+Definition lcase := (regex * list (list N * option bool))%type.
+Definition loop_ok (c : lcase) : bool :=
+  match c with (t, ws) =>
+    match program t with
+    | Ok p => forallb (fun wo => match cpp_match true shipped_fuel p (fst wo), snd wo with
+                                 | Ok b, Some b' => Bool.eqb b b'
+                                 | Crash OutOfFuel, None => true
+                                 | _, _ => false
+                                 end) ws
+    | _ => false
+    end
+  end.
+Definition bad_l := bad_from loop_ok 0%nat.
 """
 
 STUB_COMMON = """// Stand-in for the generated common.hpp (which needs the third-party tl/optional.hpp):
@@ -150,13 +165,45 @@ int main(int argc, char** argv) {
 """
 
 
+KEY_NONGREEDY = "nongreedy-notimplemented"
+KEY_EPS_CYCLE = "cpp-match-epsilon-cycle-nontermination"
+
+
 def classify_crash(tree, exc: str) -> str:
     f = G.features(tree)
     if exc == "AssertionError" and f["starts"] > 1:
         return "start-anchor-not-first"
-    if f["non_greedy"]:
+    if exc == "NotImplementedError" and f["non_greedy"]:
         return "non-greedy-quantifier"
     return "other"
+
+
+def eps_cyclic(prog) -> bool:
+    """Does the real program contain a cycle of non-consuming instructions?"""
+    ins = [p[0] for p in prog]
+    n = len(ins)
+
+    def succ(pc):
+        i = ins[pc]
+        if i["k"] == "jump":
+            return [i["t"]]
+        if i["k"] == "split":
+            return [i["a"], i["b"]]
+        if i["k"] == "end":
+            return [pc + 1]
+        return []
+    for start in range(n):
+        seen = set()
+        stack = [x for x in succ(start) if x < n]
+        while stack:
+            pc = stack.pop()
+            if pc in seen:
+                continue
+            seen.add(pc)
+            stack += [x for x in succ(pc) if x < n]
+        if start in seen:
+            return True
+    return False
 
 
 def how_to_translate(pattern: str) -> str:
@@ -281,6 +328,7 @@ def streams(ctx: lib.Ctx) -> None:
     n_parse_crash = n_parse_err = n_fe_reject = n_py_reject = 0
     tcases, tidx = [], []
     crash_classes = {}
+    crash_exc = {}
     gen_classes = {}
     usable = []        # (pattern, tree, prog) : accepted, translated, python compiles
     sem_only = []      # parse ok + python compiles, not usable (still checked by 'sem')
@@ -310,8 +358,13 @@ def streams(ctx: lib.Ctx) -> None:
         if fe and isinstance(prog, dict):
             # the property itself: accepted anchored pattern, program not emitted
             cls = classify_crash(tree, prog["exc"])
-            key = f"translate-{prog['exc']}:{cls}" if cls != "other" else \
-                f"translate-{prog['exc']}:{pat}"
+            if cls == "non-greedy-quantifier":
+                key = KEY_NONGREEDY
+            elif cls != "other":
+                key = f"translate-{prog['exc']}:{cls}"
+            else:
+                key = f"translate-{prog['exc']}:{pat}"
+            crash_exc[key] = prog["exc"]
             best = crash_classes.get(key)
             if best is None or len(pat) < len(best):
                 crash_classes[key] = pat
@@ -329,7 +382,7 @@ def streams(ctx: lib.Ctx) -> None:
         elif pyok:
             sem_only.append((pat, tree))
     for key, pat in sorted(crash_classes.items()):
-        exc = key.split(":")[0].split("-", 1)[1]
+        exc = crash_exc[key]
         ctx.impl_failure(key, f"revm.translate raises {exc} on a pattern the front end accepts "
                               f"(no VM program is emitted)", {"pattern": pat}, {"exc": exc},
                          "translate", how_to_translate(pat))
@@ -429,13 +482,15 @@ def streams(ctx: lib.Ctx) -> None:
     for name in ("sem", "cpp-model"):
         ctx.count(name, sum(len(ws) for _, ws in widx), validated=sum(len(ws) for _, ws in widx))
 
+    prog_of = {pat: prog for pat, _, prog in usable}
+    tree_of = {pat: tree for pat, tree, _ in usable}
     # --- compiled generated C++ matcher on the real programs
     k_cpp = ctx.n(40, 600)
     corpus_set = set(G.CORPUS)
     cpp_items = [(pat, ws) for pat, ws in widx
-                 if pat in corpus_set and any(pat == u[0] for u in usable)]
+                 if pat in corpus_set and pat in prog_of]
     rest = [(pat, ws) for pat, ws in widx if pat not in corpus_set
-            and any(pat == u[0] for u in usable)]
+            and pat in prog_of]
     cpp_items += rest[:k_cpp]
     extra = ["a", "aa", "ab", "b", "aab", "abc", "c"]
     items = [(pat, [w for w, _ in ws] + [e for e in extra if e not in [w for w, _ in ws]])
@@ -463,13 +518,17 @@ def streams(ctx: lib.Ctx) -> None:
         for pat, w, g, v in bad_cpp:
             kind = {"TIMEOUT": "cpp-nontermination", "EXC": "cpp-exception",
                     "CTOR-EXC": "cpp-constructor-exception"}.get(g, "cpp-verdict")
+            if g == "TIMEOUT" and eps_cyclic(prog_of[pat]):
+                # the known defect: Pop clears has_, a popped pc of an epsilon-cycle is
+                # spawned again and again
+                kind = KEY_EPS_CYCLE
             if g.startswith("GEN-"):
                 kind = "cpp-generation-" + g[4:]
             best = kinds.get(kind)
             if best is None or len(pat) + len(w) < len(best[0]) + len(best[1]):
                 kinds[kind] = (pat, w, g, v)
         for kind, (pat, w, g, v) in sorted(kinds.items()):
-            key = f"{kind}:epsilon-cycle" if kind == "cpp-nontermination" else f"{kind}:{pat}:{w!r}"
+            key = kind if kind == KEY_EPS_CYCLE else f"{kind}:{pat}:{w!r}"
             ctx.impl_failure(
                 key,
                 f"generated C++ Match on the program of {pat!r} and the word {w!r}: {g} "
@@ -479,6 +538,26 @@ def streams(ctx: lib.Ctx) -> None:
                 "compile revm.cpp from cpp/lib/_generate_revm.generate_implementation with the "
                 "program from _generate_pattern._generate_program_definition_for_regex and call "
                 "revm::Match (see harness/props/c18.py run_cpp)")
+        # the model of the loop as shipped against the observed outcomes, inside Coq
+        lcases, lidx = [], []
+        for pat, words in items:
+            vs = got[pat]
+            obs = []
+            for w, g in zip(words, vs):
+                if g in ("1", "0"):
+                    obs.append(coq_pair(coq_text(w), coq_option(coq_bool(g == "1"))))
+                elif g == "TIMEOUT":
+                    obs.append(coq_pair(coq_text(w), coq_option(None)))
+            if obs:
+                lcases.append(coq_pair(G.coq_tree(tree_of[pat]), coq_list(obs)))
+                lidx.append(pat)
+        bad, _ = lib.run_cases(ctx.work, "c18_l", HEADER, "lcase", "bad_l", lcases, shard=100)
+        for i in bad[:8]:
+            pat = lidx[i]
+            ctx.corr_break("cpp-loop", {"pattern": pat, "words": dict(items)[pat]},
+                           "cpp_match true shipped_fuel differs from the compiled matcher",
+                           got[pat])
+        ctx.count("cpp-loop", len(lcases), validated=len(lcases))
         ctx.count("cpp", n_eval, validated=n_eval, cpp_patterns=len(items),
                   cpp_seconds=round(time.time() - t0, 1))
 
